@@ -412,6 +412,8 @@ class Fn:
             return [], "true" if n["value"] else "false", "bool"
         if k == "StringLiteral":
             return [], lean_bytes(json.loads(n["value"])), "bytes"
+        if k == "CharacterLiteral":
+            return [], "([%d] : Bytes)" % int(n["value"]), "bytes"
         if k == "CXXDefaultArgExpr":
             raise Untranslatable("default argument outside a known call")
         if k in ("CXXTemporaryObjectExpr", "CXXConstructExpr") and not [c for c in kids(n) if c.get("kind") != "CXXDefaultArgExpr"]:
@@ -1157,7 +1159,13 @@ class Fn:
                 if self.const:
                     raise Untranslatable("branch without return in a const function")
                 tup = lambda e: self.join_tuple(names, e)
+                saved_counters = (self.nloops, self.ctx.tmp)
                 code = self.cond(cnd, env, lambda: self.stmts(tss, dict(env), tup, None), lambda: self.stmts(ess, dict(env), tup, None))
+                if names and not self.free and "let s :=" not in code and "let (s," not in code:
+                    self.nloops, self.ctx.tmp = saved_counters
+                    # the state is not touched in either branch: the join carries the locals only
+                    tup = lambda e: (lambda ps: ps[0] if len(ps) == 1 else "(" + ", ".join(ps) + ")")([e[x][0] for x in names])
+                    code = self.cond(cnd, env, lambda: self.stmts(tss, dict(env), tup, None), lambda: self.stmts(ess, dict(env), tup, None))
                 # a condition with prefix lines (state-changing calls) cannot be a `let … := if`: wrap
                 lhs = tup(env)
                 return "let %s :=\n%s\n%s" % (lhs, ind(code), self.stmts(rest, env, k, brk))
@@ -1225,8 +1233,17 @@ class Fn:
         if kind in ("ForStmt", "WhileStmt"):
             if self.free:
                 return self.loop(s, rest, env, k, brk)
-            lines, env2 = self.map_loop(s, env)
-            return "\n".join(lines + [self.stmts(rest, env2, k, brk)])
+            try:
+                lines, env2 = self.map_loop(s, env)
+                return "\n".join(lines + [self.stmts(rest, env2, k, brk)])
+            except Untranslatable as e1:
+                # a loop over locals only (no call that changes the object's state in it): the general translation
+                if self.effectful(s):
+                    raise e1
+                code = self.loop(s, rest, env, k, brk)
+                if "let s :=" in code.split("match go")[0] or "let (s," in code.split("match go")[0]:
+                    raise e1
+                return code
         lines, env2 = self.simple(s, env)
         return "\n".join(lines + [self.stmts(rest, env2, k, brk)])
 
@@ -1381,6 +1398,10 @@ class Fn:
         after = self.stmts(rest, env, k, brk)
         pat_some = tup("some r_", env)
         pat_none = tup("none", env)
+        from cxx2lean import has_kind
+        if not any(has_kind(b, "ReturnStmt") for b in bss):
+            # no `return` inside the loop: it can only be left by its condition or a break
+            return "\n".join(pre_lines + [fn, "match %s with\n| %s =>\n%s" % (call, tup("_", env), ind(after))])
         early = self.result("r_" if self.ret != "void" else None, env)
         return "\n".join(pre_lines + [fn, "match %s with\n| %s => %s\n| %s =>\n%s" % (call, pat_some, early, pat_none, ind(after))])
 
@@ -1443,6 +1464,18 @@ class Fn:
         if not ok:
             raise Untranslatable("loop that does not run from begin() to end() of one map")
         names = self.assigned(bss, env)
+        if not names and not self.free:
+            # the body only acts on the state (writes each entry somewhere): a fold with the state as accumulator
+            env_in = dict(env)
+            sub = ItFn(self, itname)
+            lines = []
+            for st in bss:
+                l, env_in = sub.simple(st, env_in)
+                lines += l
+            self.uses_env = self.uses_env or sub.uses_env
+            self.oracles = sub.oracles
+            body_code = "\n".join(lines + ["s"])
+            return pm + ["let s := %s.foldl (fun s e =>\n%s) s" % (cm, ind(body_code, 4))], env
         if len(names) != 1 or env[names[0]][1] != "bytes":
             raise Untranslatable("loop body that does more than append to one byte array")
         acc = env[names[0]][0]
@@ -1465,6 +1498,22 @@ class ItFn(Fn):
     def __init__(self, outer, itname):
         self.__dict__.update(outer.__dict__)
         self.itname = itname
+        self.outer_cls = outer.__class__ if not isinstance(outer, ItFn) else outer.outer_cls
+
+    def call_member(self, n, env, want_value):
+        return self.outer_cls.call_member(self, n, env, want_value)
+
+    def call_free(self, n, env, want_value):
+        return self.outer_cls.call_free(self, n, env, want_value)
+
+    def member(self, n):
+        return self.outer_cls.member(self, n)
+
+    def obj_path(self, n):
+        return self.outer_cls.obj_path(self, n)
+
+    def effectful(self, n):
+        return self.outer_cls.effectful(self, n)
 
     def ex(self, n, env):
         n0 = strip(n)
@@ -1475,7 +1524,7 @@ class ItFn(Fn):
                     return [], "e.1", "bytes"
                 if callee["name"] == "value":
                     return [], "e.2", "bytes"
-        return Fn.ex(self, n, env)
+        return self.outer_cls.ex(self, n, env)
 
 
 # ---------------------------------------------------------------------------------------------------
@@ -1567,7 +1616,8 @@ def translate_socket(repo, exp):
 
 PROXY_FIELDS = {"mHeadersParsed": ("headersParsed", "bool"), "mHeadersWritten": ("headersWritten", "bool"),
                 "mUpstreamRead": ("upRead", "bytes"), "mUpstreamWrite": ("buf", "bytes")}
-PROXY_WANTED = ["ProxySocket::onDownstreamReadyRead", "ProxySocket::onUpstreamReadyRead", "ProxySocket::onUpstreamError"]
+PROXY_WANTED = ["ProxySocket::onDownstreamReadyRead", "ProxySocket::onUpstreamReadyRead", "ProxySocket::onUpstreamError", "ProxySocket::onUpstreamConnected"]
+KEEP_SETS = {"/:@!$&'()*+,;=": "Proxy.pathKeep", "?/:@!$&'()*+,;=%#[]": "Proxy.queryKeep"}
 
 
 class ProxyFn(Fn):
@@ -1581,6 +1631,13 @@ class ProxyFn(Fn):
         self.env_sig = "(env : Env) "
         # the error code parameter of onUpstreamError is not used by the slot
         self.params = [p for p in self.params if not p[2].startswith("?")]
+        self.needs_cfg = False
+
+    def translate(self):
+        text = Fn.translate(self)
+        if self.needs_cfg:
+            text = text.replace("(s : Proxy.St)", "(c : Proxy.Cfg) (s : Proxy.St)", 1)
+        return text
 
     def member(self, n):
         n = strip(n)
@@ -1633,6 +1690,9 @@ class ProxyFn(Fn):
                     if a[0][1] == "bytes":
                         return pre + ["let s := Px.upWrite s %s" % a[0][0]], "()", "void"
                 raise Untranslatable("mUpstreamSocket." + nm)
+            if obj == "ds" and not real and nm in ("rawPath", "method", "headers"):
+                return [], {"rawPath": "s.sock.rawPath", "method": "((s.sock.method : Nat) : Int)", "headers": "s.sock.reqHeaders"}[nm], \
+                    {"rawPath": "bytes", "method": "int", "headers": "hmap"}[nm]
             if obj == "ds":
                 self.uses_env = True
                 pre, a = self.args(real, env)
@@ -1652,6 +1712,35 @@ class ProxyFn(Fn):
                 if nm == "close" and not a:
                     return pre + ["let s := Px.dsClose env s"], "()", "void"
                 raise Untranslatable("mDownstreamSocket->%s(%s)" % (nm, ", ".join(tys)))
+            # mDownstreamSocket->peerAddress().toString().toUtf8()
+            if nm in ("toUtf8", "toLatin1") and not real:
+                o1 = strip(kids(callee)[0])
+                if o1.get("kind") == "CXXMemberCallExpr" and strip(kids(o1)[0]).get("name") == "toString":
+                    o2 = strip(kids(strip(kids(o1)[0]))[0])
+                    if o2.get("kind") == "CXXMemberCallExpr" and strip(kids(o2)[0]).get("name") == "peerAddress" \
+                            and self.obj_path(kids(strip(kids(o2)[0]))[0]) == "ds":
+                        self.needs_cfg = True
+                        return [], "c.peerIP", "bytes"
+                # methodToString(m).toUtf8()
+                if o1.get("kind") == "CXXMemberCallExpr" and strip(kids(o1)[0]).get("name") == "methodToString":
+                    a1 = [x for x in kids(o1)[1:] if x.get("kind") != "CXXDefaultArgExpr"]
+                    p, c, t = self.ex(a1[0], env)
+                    if t == "int":
+                        return p, "(Proxy.methodToString %s.toNat)" % c, "bytes"
+            # x.toPercentEncoding("keep")
+            if nm == "toPercentEncoding" and len(real) == 1:
+                lit0 = strip(real[0])
+                if lit0.get("kind") == "StringLiteral" and json.loads(lit0["value"]) in KEEP_SETS:
+                    p, c, t = self.ex(kids(callee)[0], env)
+                    if t == "bytes":
+                        return p, "(pctEncode %s %s)" % (KEEP_SETS[json.loads(lit0["value"])], c), "bytes"
+                raise Untranslatable("toPercentEncoding with another exclusion set")
+            # header map: values(key) is a list, most recent first
+            if nm == "values" and len(real) == 1:
+                p0, c0, t0 = self.ex(kids(callee)[0], env)
+                p1, c1, t1 = self.ex(real[0], env)
+                if t0 == "hmap" and t1 == "bytes":
+                    return p0 + p1, "(HeaderMap.values %s %s)" % (c1, c0), "blist"
         return Fn.call_member(self, n, env, want_value)
 
     def call_free(self, n, env, want_value):
@@ -1659,6 +1748,13 @@ class ProxyFn(Fn):
         fn = strip(ks[0])
         nm = fn.get("referencedDecl", {}).get("name")
         real = [x for x in ks[1:] if x.get("kind") != "CXXDefaultArgExpr"]
+        if nm == "toPercentEncoding" and len(real) == 2:
+            # QUrl::toPercentEncoding(mPath, "keep")
+            lit0 = strip(real[1])
+            if lit0.get("kind") == "StringLiteral" and json.loads(lit0["value"]) in KEEP_SETS and self.member(real[0]) == "mPath":
+                self.needs_cfg = True
+                return [], "(pctEncode %s c.path)" % KEEP_SETS[json.loads(lit0["value"])], "bytes"
+            raise Untranslatable("QUrl::toPercentEncoding of something else than mPath with a known exclusion set")
         if nm == "parseResponseHeaders" and len(real) == 4:
             pre, a = self.args(real[:1], env)
             outs = []
